@@ -128,3 +128,17 @@ CHECKS["C04"] = {
         rapid_job("collection", "./verifh/c04", "TestCollectionStream", 3000, 20000),
     ],
 }
+
+CHECKS["C08"] = {
+    "rule": ("all 256 truth-table predicates over (id in {a,b}) x (value in {absent,v1,v2,v3}) x backpressure on/off x initial contents x every history of updates/deletes up to length 3 (quick) / 4 (thorough), "
+             "plus rapid-drawn tables with histories of 1-12 writes and updates-only subscriptions, and the booking server's period-intersection predicate with generated bookings; "
+             "oracle: fold(filtered stream) == List(same predicate) == model's filtered map, seed == filtered list, and with backpressure the per-event decision table "
+             "(stays matching -> delivered as is, starts -> ADD, stops -> REMOVE with old value, neither -> nothing). non-trivial = history containing an update that stays included "
+             "or one that stays excluded (the two decision-table rows the repository's own test never reaches); distinct by (table, options, history)"),
+    "assumptions": ["'matches' means the item exists and satisfies the predicate", "lossy subscriptions are judged at quiescence by their folded view only"],
+    "jobs": [
+        enum_job("tables", "./verifh/c08", "TestIncludeTables", shards={Q: 8, T: 16}, timeout={Q: 600, T: 3000}),
+        rapid_job("random", "./verifh/c08", "TestIncludeRandom", 3000, 20000),
+        rapid_job("booking", "./verifh/c08", "TestBookingIntersects", 2000, 10000),
+    ],
+}
